@@ -222,6 +222,8 @@ fn make_base(prof: &Profile, seed: u64, i: usize, real: Option<&mut dyn Write>) 
     let universe = *rng.pick(&[4u64, 8, 12, 16, 24, 32, 64, 200]);
     let universe = if prof.gen == "saturate" { 4096 } else { universe };
     let kind = *rng.pick(gen::PLAN_KINDS);
+    // elements displaced by whole groups are what an in-place rehash relocates
+    let kind = if prof.name == "entry-sat" && rng.chance(2, 3) { *rng.pick(&["cluster", "groupstride", "postag", "lsbtwins"]) } else { kind };
     let steps = match prof.gen {
         "saturate" => prof.steps.unwrap_or(150 + rng.below(250) as usize),
         _ => prof.steps.unwrap_or(20 + rng.below(200) as usize),
